@@ -345,14 +345,14 @@ def obligations(tier):
     import itertools
     thorough = tier == "thorough"
     hist = []
-    maxc, maxe = (4, 3) if thorough else (3, 2)
+    maxc, maxe = (4, 3) if thorough else (3, 2)  # (4-call sequences only with <=2 events, see below)
     for nc in range(1, maxc + 1):
         for calls in itertools.product(CALLS, repeat=nc):
             if nc == maxc and not thorough and calls.count("send") + calls.count("ping") > 1:
                 continue
             if nc == 4 and (calls.count("send") + calls.count("ping") > 1 or len(set(calls)) < 3):
                 continue
-            for ne in range(0, maxe + 1):
+            for ne in range(0, (maxe if nc < 4 else 2) + 1):
                 for events in itertools.product(EVENTS, repeat=ne):
                     # events after a terminal one are unreachable: skip duplicates
                     if any(e in ("eof", "reset", "silence") for e in events[:-1]):
